@@ -213,6 +213,7 @@ def run_C07(tier, seed, replay=None, procs=16):
         # the objective pool, plus cross-feature problems carrying one random objective (families/mixed.py)
         from families import mixed as F_mixed
         ps = number(FS.pool(objs, shapes=("plain", "optional", "select", "variable", "buffer", "single"))
+                    + FS.pool(["makespan", "flowtime", "start_latest"], shapes=("all-optional",))
                     + F_mixed.fam_mixed(tier, seed, "objective", n=60 if full else 14))
     V, st_enum = SE.prepare(ps)
     cases = []
